@@ -97,18 +97,40 @@ def r1_r2(prog, rep):
 
 def r3(tree, prog, rep):
     fn = tree.func(MGR, "Dilator", "stop")
-    g = build(fn)
-    mt = [t for t in g.nodes(lambda s: isinstance(s, ast.If)) if is_self_attr(g.stmt[t].test, "_manager")]
+    from ..cfg import truthy_atom
+    from ..astutil import resolve_local
+    g = build(fn, split=True)
+    dil_methods = tree.methods(MGR, "Dilator")
+    has_manager = truthy_atom(lambda e: is_self_attr(e, "_manager"))
     ms = g.call_nodes(lambda c: dotted(c.func) == "self._manager.stop")
-    chain = g.call_nodes(lambda c: isinstance(c.func, ast.Attribute) and c.func.attr in ("addCallback", "addBoth") and isinstance(c.func.value, ast.Call)
-                         and dotted(c.func.value.func) == "self._manager.when_stopped"
-                         and any(isinstance(x, ast.Call) and dotted(x.func) == "self._T.stoppedD" for a in c.args for x in ast.walk(a)))
+
+    def fires_stoppedD(cb):
+        """the callback (lambda / bound method of Dilator / closure) calls self._T.stoppedD"""
+        f = None
+        if isinstance(cb, ast.Lambda):
+            f = cb
+        elif is_self_attr(cb) and cb.attr in dil_methods:
+            f = dil_methods[cb.attr]
+        elif isinstance(cb, ast.Name):
+            f = next((n for n in ast.walk(fn) if isinstance(n, ast.FunctionDef) and n.name == cb.id), None)
+        return f is not None and any(isinstance(x, ast.Call) and dotted(x.func) == "self._T.stoppedD" for x in ast.walk(f))
+
+    def is_chain(c):
+        if not (isinstance(c.func, ast.Attribute) and c.func.attr in ("addCallback", "addBoth") and c.args):
+            return False
+        recv = c.func.value
+        if isinstance(recv, ast.Name):
+            recv = resolve_local(fn, recv)
+        return isinstance(recv, ast.Call) and dotted(recv.func) == "self._manager.when_stopped" and fires_stoppedD(c.args[0])
+    chain = g.call_nodes(is_chain)
     direct = [n for n in g.call_nodes(lambda c: dotted(c.func) == "self._T.stoppedD") if n not in chain]
-    ok = len(mt) == 1 and len(ms) == 1 and len(chain) == 1 and len(direct) == 1
+    te, fe = g.cond_edges(has_manager, True), g.cond_edges(has_manager, False)
+    ok = len(ms) == 1 and len(chain) == 1 and len(direct) == 1 and bool(te) and bool(fe)
     if ok:
-        ok = g.must_pass(ms, start=g.branch_targets(mt[0], 'T'), to=[g.exit], explicit_only=True) \
-            and g.must_pass(chain, start=g.branch_targets(mt[0], 'T'), to=[g.exit], explicit_only=True) \
-            and g.must_pass(direct, start=g.branch_targets(mt[0], 'F'), to=[g.exit], explicit_only=True) and g.must_pass(mt)
+        ok = all(g.exit not in g.reach([y], avoid_nodes=set(ms), explicit_only=True) for (x, y, l) in te) \
+            and all(g.exit not in g.reach([y], avoid_nodes=set(chain), explicit_only=True) for (x, y, l) in te) \
+            and all(g.exit not in g.reach([y], avoid_nodes=set(direct), explicit_only=True) for (x, y, l) in fe) \
+            and not g.only_when(ms + chain, has_manager, True)
     rep.check("C17.R3", "Dilator.stop: with a manager, stop it and chain T.stoppedD on when_stopped(); without one, call T.stoppedD directly", ok,
               site(fn, MGR), key="C17.R3:Dilator.stop", what="the Terminator can wait forever for stoppedD (close() never completes)")
     ws = tree.func(MGR, "Manager", "when_stopped")
@@ -127,13 +149,19 @@ def r3(tree, prog, rep):
 
 def r4(tree, rep):
     fn = tree.func(MGR, "Manager", "got_wormhole_versions")
-    g = build(fn)
-    vt = [t for t in g.nodes(lambda s: isinstance(s, ast.If)) if isinstance(g.stmt[t].test, ast.UnaryOp) and is_self_attr(g.stmt[t].test.operand, "_dilation_version")]
+    from ..cfg import truthy_atom as _ta
+    from ..astutil import resolve_local as _rl
+    g = build(fn, split=True)
+    have_version = _ta(lambda e: is_self_attr(e, "_dilation_version"))
     fl = g.call_nodes(lambda c: dotted(c.func) == "self.fail")
-    ok = len(vt) == 1 and len(fl) == 1 and g.must_pass(fl, start=g.branch_targets(vt[0], 'T'), to=[g.exit], explicit_only=True) and g.must_pass(vt)
+    ne = g.cond_edges(have_version, False)
+    ok = len(fl) == 1 and bool(ne) and all(g.exit not in g.reach([y], avoid_nodes=set(fl), explicit_only=True) for (x, y, l) in ne) \
+        and g.exit not in g.reach(g.entry, avoid_edges=set(ne) | set(g.cond_edges(have_version, True)), explicit_only=True)
     if ok:
         c = [c for c in ast.walk(g.stmt[fl[0]]) if isinstance(c, ast.Call) and dotted(c.func) == "self.fail"][0]
         a = c.args[0]
+        if isinstance(a, ast.Name):
+            a = _rl(fn, a)        # reason = failure.Failure(..); self.fail(reason)
         ok = isinstance(a, ast.Call) and (dotted(a.func) or "").endswith("Failure") and isinstance(a.args[0], ast.Call) and dotted(a.args[0].func) == "OldPeerCannotDilateError"
     rep.check("C17.R4", "no dilation version in common => fail(Failure(OldPeerCannotDilateError()))", ok, site(fn, MGR), key="C17.R4:no-version-fails",
               what="a peer that cannot dilate is not reported: connect()/listen() wait forever")
